@@ -228,4 +228,80 @@ theorem groupMod_rt (ver ty xid cmd t p g : Nat) (bs : List V) (es : List Bytes)
     erw [hloop]
     simp only [Res.bind_ok, Res.pure_eq, u16_n16 cmd hcmd, u8_n8 t ht, u8_n8 p hp, u32_n32 g hg, v', groupModV]
 
+/-! the standard action kinds are all multiples of 8 bytes long -/
+
+theorem round8_mod8 (n : UInt16) : (round8 n).toNat % 8 = 0 := by
+  unfold round8
+  rw [UInt16.toNat_mul, UInt16.toNat_div]
+  have h8 : (8 : UInt16).toNat = 8 := rfl
+  rw [h8]
+  have := (n + 7).toNat_lt
+  omega
+
+theorem lookup_mem {β} (l : List (Nat × β)) (k : Nat) (z : β) (h : l.lookup k = some z) : (k, z) ∈ l := by
+  induction l with
+  | nil => simp [List.lookup] at h
+  | cons p l ih =>
+    obtain ⟨a, b⟩ := p
+    simp only [List.lookup] at h
+    split at h
+    · rename_i heq
+      have : k = a := by simpa using heq
+      cases h; subst this; simp
+    · exact List.mem_cons_of_mem _ (ih h)
+
+/-- a value of a kind `DecodeAction` allocates for one of the standard (non-experimenter) action types -/
+def StdKind (a : V) : Prop := ∃ ty z, actionTypeTable.lookup ty = some z ∧ a.kind = z.kind
+
+/-- every standard action kind has a Len() that is a multiple of 8 (since the header-only types, set-mpls-ttl and set-nw-ttl
+    are 8-byte kinds): whatever the field values -/
+theorem stdKind_len8 (v v' : V) (l : UInt16) (hs : StdKind v) (hl : Action.lenM v = .ok (l, v')) : l.toNat % 8 = 0 := by
+  obtain ⟨ty, z, hlook, hk⟩ := hs
+  have hmem := lookup_mem _ _ _ hlook
+  have hne : v.kind ≠ "NXActionConnTrack" := by
+    simp only [actionTypeTable, List.mem_cons, List.not_mem_nil, or_false, Prod.mk.injEq] at hmem
+    rcases hmem with ⟨_, rfl⟩ | ⟨_, rfl⟩ | ⟨_, rfl⟩ | ⟨_, rfl⟩ | ⟨_, rfl⟩ | ⟨_, rfl⟩ | ⟨_, rfl⟩ | ⟨_, rfl⟩ | ⟨_, rfl⟩ | ⟨_, rfl⟩ |
+      ⟨_, rfl⟩ | ⟨_, rfl⟩ | ⟨_, rfl⟩ | ⟨_, rfl⟩ | ⟨_, rfl⟩ | ⟨_, rfl⟩ <;> (rw [hk]; decide)
+  rw [action_len_leaf v hne] at hl
+  unfold Action.lenLeaf at hl
+  simp only [actionTypeTable, List.mem_cons, List.not_mem_nil, or_false, Prod.mk.injEq] at hmem
+  rcases hmem with ⟨_, rfl⟩ | ⟨_, rfl⟩ | ⟨_, rfl⟩ | ⟨_, rfl⟩ | ⟨_, rfl⟩ | ⟨_, rfl⟩ | ⟨_, rfl⟩ | ⟨_, rfl⟩ | ⟨_, rfl⟩ | ⟨_, rfl⟩ |
+      ⟨_, rfl⟩ | ⟨_, rfl⟩ | ⟨_, rfl⟩ | ⟨_, rfl⟩ | ⟨_, rfl⟩ | ⟨_, rfl⟩ <;> rw [hk] at hl
+  all_goals first
+    | (cases hl; rfl)
+    | skip
+  replace hl : ActionSetField.lenM v = .ok (l, v') := hl
+  unfold ActionSetField.lenM at hl
+  split at hl
+  · obtain ⟨⟨fl, f'⟩, _, g1⟩ := bind_ok_inv _ _ _ hl
+    cases g1
+    exact round8_mod8 _
+  · cases hl
+
+/-- a list of round-tripping actions of standard kinds occupies a multiple of 8 bytes -/
+theorem stdKinds_flatten8 (as : List V) (encs : List Bytes) (h : ActionsRTd as encs) (hstd : ∀ a ∈ as, StdKind a) :
+    encs.flatten.length % 8 = 0 := by
+  induction h with
+  | nil => rfl
+  | @cons a e as es h1 _ ih =>
+    obtain ⟨_, hl, _, h64, _⟩ := h1
+    have h8 := stdKind_len8 a a _ (hstd a (by simp)) hl
+    have hto : (UInt16.ofNat e.length).toNat = e.length := by
+      simp [UInt16.toNat_ofNat']; omega
+    rw [hto] at h8
+    have := ih (fun x hx => hstd x (by simp [hx]))
+    simp only [List.flatten_cons, List.length_append]
+    omega
+
+/-- `bucket_rt` for action lists of standard kinds: the hypothesis "sizes add up to a multiple of 8" always holds -/
+theorem bucket_rt_std (w wp wg : Nat) (as : List V) (encs : List Bytes) (hw : w < 65536) (hwp : wp < 4294967296)
+    (hwg : wg < 4294967296) (has : ActionsRTd as encs) (hstd : ∀ a ∈ as, StdKind a) (hS : 16 + encs.flatten.length < 65536) :
+    let L := 16 + encs.flatten.length
+    let bs := bucketBytes L w wp wg encs
+    (∀ (ln0 : Nat) (pad : V), Bucket.marshalM (bucketV ln0 w wp wg pad as) = .ok (bs, bucketV L w wp wg pad as)) ∧
+    (∀ (ln0 : Nat) (pad : V), Bucket.lenM (bucketV ln0 w wp wg pad as) = .ok (n16 L, bucketV ln0 w wp wg pad as)) ∧ bs.length = L ∧
+    ∀ (data : Slice) (tail : Bytes), data.WF → data.bytes = bs ++ tail →
+      Bucket.unmarshalP Bucket.zero data = .ok (bucketV L w wp wg (.bytes []) as, false) :=
+  bucket_rt w wp wg as encs hw hwp hwg has (stdKinds_flatten8 as encs has hstd) hS
+
 end OFV.RT2
